@@ -141,6 +141,9 @@ func (matrix *DenseInt64Matrix) DIAG() DenseInt64Vector {
   return DenseInt64Vector(v)
 }
 func (matrix *DenseInt64Matrix) SLICE(rfrom, rto, cfrom, cto int) *DenseInt64Matrix {
+  if rfrom < 0 || rto < rfrom || rto > matrix.rows || cfrom < 0 || cto < cfrom || cto > matrix.cols {
+    panic(fmt.Errorf("slice (%d:%d,%d:%d) out of bounds for matrix of dimension %dx%d", rfrom, rto, cfrom, cto, matrix.rows, matrix.cols))
+  }
   m := *matrix
   m.rowOffset += rfrom
   m.rows = rto - rfrom
@@ -304,12 +307,7 @@ func (matrix *DenseInt64Matrix) ConstAt(i, j int) ConstScalar {
   return Int64{&matrix.values[matrix.index(i, j)]}
 }
 func (matrix *DenseInt64Matrix) ConstSlice(rfrom, rto, cfrom, cto int) ConstMatrix {
-  m := *matrix
-  m.rowOffset += rfrom
-  m.rows = rto - rfrom
-  m.colOffset += cfrom
-  m.cols = cto - cfrom
-  return &m
+  return matrix.SLICE(rfrom, rto, cfrom, cto)
 }
 func (matrix *DenseInt64Matrix) ConstRow(i int) ConstVector {
   var v []int64
